@@ -2691,6 +2691,71 @@ func init() {
 					}
 					return s, true
 				}})
+			// second clause: giving up needs evidence of absence. Every top-level field of the parsed body the detector reads is
+			// a kind marker; a path that answers "" (other than on the parse error) has taken, for each of them, an edge on
+			// which the field — or the part of it the detector looks at — was found empty. A path that merely failed to
+			// match the marker's value against known prefixes has seen a marker and still gives up.
+			markers := map[string]bool{}
+			an.Instrs(fn, func(in ssa.Instruction) {
+				v, ok := in.(ssa.Value)
+				if !ok {
+					return
+				}
+				if _, isFA := in.(*ssa.FieldAddr); !isFA {
+					return
+				}
+				if root, p := accessPath(v); root == parsed && len(p) > 0 {
+					markers[p[0]] = true
+				}
+			})
+			onParseError := func(b *ssa.BasicBlock) bool {
+				for _, g := range an.GuardingEdges(b) {
+					if x, nilSucc, ok := an.NilTest(g.If()); ok && an.IsErrorType(x.Type()) && g.Succ != nilSucc {
+						return true
+					}
+				}
+				return false
+			}
+			bad2, missing := token.NoPos, ""
+			an.Paths(an.PathSpec[string]{Fn: fn, Init: "",
+				Instr: func(st string, in ssa.Instruction) []string {
+					if ret, ok := in.(*ssa.Return); ok && len(ret.Results) == 1 && bad2 == token.NoPos {
+						if v, ok := an.ConstString(ret.Results[0]); ok && v == "" && !onParseError(ret.Block()) {
+							var ms []string
+							for m := range markers {
+								if !strings.Contains(","+st+",", ","+m+",") {
+									ms = append(ms, m)
+								}
+							}
+							sort.Strings(ms)
+							if len(ms) > 0 {
+								bad2, missing = ret.Pos(), strings.Join(ms, ", ")
+							}
+						}
+					}
+					return []string{st}
+				},
+				Edge: func(st string, from *ssa.BasicBlock, succ int) (string, bool) {
+					if ifi := an.BlockIf(from); ifi != nil {
+						if ps, f, ok := presentSucc(ifi); ok && succ != ps {
+							top := f
+							if i := strings.Index(top, "."); i >= 0 {
+								top = top[:i]
+							}
+							if !strings.Contains(","+st+",", ","+top+",") {
+								parts := strings.Split(st, ",")
+								if st == "" {
+									parts = nil
+								}
+								parts = append(parts, top)
+								sort.Strings(parts)
+								return strings.Join(parts, ","), true
+							}
+						}
+					}
+					return st, true
+				}})
+			c.Check(bad2 == token.NoPos, "gives-up-only-on-absence", fn.Pos(), "%s answers \"\" only on paths that found every kind marker it reads (%s) empty: %v%s", c.P.FuncName(fn), strings.Join(sortedKeys(markers), ", "), bad2 == token.NoPos, map[bool]string{true: "", false: fmt.Sprintf(" (it gives up at %s without having found %s empty) — a body that carries the marker with a value the detector does not know is then accepted under any declared media type, e.g. an image manifest with an artifact config type under an index Content-Type: nothing it references is verified", c.P.Pos(bad2), missing)}[bad2 == token.NoPos])
 			c.Check(bad == token.NoPos, "gives-up-only-without-markers", fn.Pos(), "%s answers \"\" only where every field it tested was absent (it gives up at %s although %s was found present): %v — otherwise a body of a recognisable kind is not recognised and the handler's comparison with the declared media type is skipped for it", c.P.FuncName(fn), c.P.Pos(bad), badField, bad == token.NoPos)
 		}})
 }
